@@ -270,6 +270,7 @@ class ExpectationMaximization(ParameterEstimator):
             pbar = tqdm(total=max_iter)
 
         mle.model = self.model_copy
+        new_cpds = list(self.model_copy.cpds)
         # Step 4: Run the EM algorithm.
         for _ in range(max_iter):
             # Step 4.1: E-step: Expands the dataset and computes the likelihood of each
